@@ -7,6 +7,8 @@
 (* creation of the same id by the owner and by a stranger, and by the creation of a second job.     *)
 (* The spelling of the hex payload (bare, 0x, 0X, odd length, upper case, empty) is varied for the  *)
 (* stored payload of jobs on the two relaying chains and for the caller's payload of transactions.  *)
+(* Perturbation cover: discarded branches (simulation / rolled back delivery of [CreateJob, ExecuteJob]) followed  *)
+(* by the real creation of the same id by somebody else, executions and queries.                     *)
 (* Simulate mode: random walks over creations (three ids) and executions, one creation every third  *)
 (* step.                                                                                            *)
 EXTENDS Scheduler, Json
@@ -50,6 +52,29 @@ GActC == IF nops = 0 THEN GCreate1 ELSE GExec \/ GCreate2
 GNextC == (IF EmitCond THEN PrintT(<<"HIST", ToJson(hist)>>) ELSE TRUE)
           /\ GActC /\ hist' = Append(hist, Step(last'))
 
+\* Perturbation cover (depth 4): a discarded branch - simulation of [CreateJob 1, ExecuteJob 1] by an account or the
+\* contract, or the rolled back delivery of it - describing a job on a relaying / a non-relaying chain; then the REAL
+\* creation of the still free id 1 by ANOTHER principal with another contract and payload (or of another id, or a
+\* second perturbation); then executions by everybody and queries.  Also: perturbations that name an id which is
+\* already stored (between its creation and its executions).
+GPert(id) == \E who \in Callers, c \in {2, 3} \cap Chains :
+   \/ Simulate(who, ViaC(who), id, c, TP(1), TP(1), "bare", TRUE, FALSE)
+   \/ who \in Accounts /\ RolledBack(who, id, c, TP(1), TP(1), "bare", TRUE, FALSE)
+GReal(id) == \E who \in Callers, m \in BOOLEAN :
+   /\ (last.act \in {"Simulate", "RolledBack"} => who # last.who)
+   /\ Create(who, who, ViaC(who), id, 2, TP(2), TP(2), IF m THEN "0x" ELSE "bare", m, FALSE)
+GUse(id) == \/ \E who \in Callers : \E via \in Vias(who) : Execute(who, who, via, id, IF via = "tx" THEN 0 ELSE 1, "bare")
+            \/ id \in DOMAIN jobs /\ jobs[id].mod /\ Execute(AnAccount, AnAccount, "tx", id, 1, "bare")
+            \/ Query(id)
+GActG == CASE nops = 0 -> GPert(1) \/ GReal(1)
+           [] nops = 1 -> IF last.act = "Create" THEN GPert(1) ELSE GReal(1)
+           [] nops = 2 -> GUse(1)
+           [] OTHER    -> Query(1) \/ Execute(AnAccount, AnAccount, "tx", 1, 0, "bare")
+GNextG == (IF nops = MaxOps THEN PrintT(<<"HIST", ToJson(hist)>>) ELSE TRUE)
+          /\ GActG /\ hist' = Append(hist, Step(last'))
+\* the path is part of the view: discarded branches do not change the state
+GViewH == <<last, res, svars, hist>>
+
 \* simulate mode
 \* (target and payload vary together: every successor is enumerated at every step of a walk)
 GCreateS == \E who \in Callers, id \in JobIds, c \in Chains, p \in Payloads, sp \in Spellings, m \in BOOLEAN, v \in BOOLEAN :
@@ -57,7 +82,12 @@ GCreateS == \E who \in Callers, id \in JobIds, c \in Chains, p \in Payloads, sp 
 GExecS == \E who \in Callers, id \in JobIds \cup {BadId}, pg \in 0..2 : \E via \in Vias(who) : \E sp \in ExecSp(via, pg) :
    /\ (via # "tx" => pg # 2)
    /\ Execute(who, who, via, id, pg, sp)
-GActS == IF nops % 3 = 0 THEN GCreateS ELSE GExecS
+GPertS == \E who \in Callers, id \in JobIds, c \in Chains, p \in Payloads, m \in BOOLEAN :
+   \/ Simulate(who, ViaC(who), id, c, IF p \in Targets THEN p ELSE TP(1), p, "bare", m, FALSE)
+   \/ who \in Accounts /\ RolledBack(who, id, c, IF p \in Targets THEN p ELSE TP(1), p, "bare", m, FALSE)
+   \/ Query(id)
+\* every fourth step is a perturbation or a query, one creation every third of the others
+GActS == IF nops % 4 = 1 THEN GPertS ELSE IF nops % 3 = 0 THEN GCreateS ELSE GExecS
 GNextS == (IF nops = EmitAt THEN PrintT(<<"HIST", ToJson(hist)>>) ELSE TRUE)
           /\ GActS /\ hist' = Append(hist, Step(last'))
 =============================================================================
